@@ -15,6 +15,7 @@ type Ev map[string]any
 // Recorder collects the events of one connection (or one run) in program order.
 type Recorder struct {
 	mu     sync.Mutex
+	MaxBuf int // largest matching buffer seen on any Connection of this client (bytes)
 	Hist   []Ev // events of the specification's vocabulary
 	Aux    []Ev // everything else (matcher calls, closes, ...)
 	Stream []byte
@@ -237,4 +238,13 @@ func (r *Recorder) WaitBranch(max time.Duration) {
 	segs := append(Segs{}, r.BranchSegs...)
 	r.branchMu.Unlock()
 	r.Add(Ev{"e": "Branch", "segs": segs})
+}
+
+// NoteBuf remembers the largest matching buffer observed.
+func (r *Recorder) NoteBuf(n int) {
+	r.mu.Lock()
+	if n > r.MaxBuf {
+		r.MaxBuf = n
+	}
+	r.mu.Unlock()
 }
